@@ -184,6 +184,18 @@ def run_case(case):
                 if e is fault:
                     out.label("key_refresh_failed")
             sent = [s for s in rig.bottom.sent][skip:]
+            sent2 = tree2 = None
+            if case.get("again") and raised is None and fault is None and kind != "picture_bad":
+                # the same kind of stanza from the same sender once more, while whatever the client asked the server because of
+                # the first one (a key request, say) is still unanswered: it is a stanza of its own and acknowledged as such
+                tree2 = (tag, dict(tree[1], id=str(tree[1].get("id")) + "b"), content)
+                n_before = len(rig.bottom.sent)
+                try:
+                    rig.inject(T.to_node(tree2))
+                except Exception as e:
+                    raised = e
+                sent2 = [s for s in rig.bottom.sent][n_before:]
+                out.label("same_kind_again_before_any_answer")
         finally:
             rig.close()
         evals += 1
@@ -201,6 +213,12 @@ def run_case(case):
             out.fail("ack", "%s:%s" % (kind_key(kind, case), problem[0]), {"config": cfg, "detail": problem[1],
                                                                        "sent_down": [describe(s) for s in sent][:6]}, case=single)
             return out
+        if tree2 is not None:
+            problem = check(kind, tree2, sent2)
+            if problem:
+                out.fail("ack", "%s:second_of_the_kind:%s" % (kind_key(kind, case), problem[0]),
+                         {"config": cfg, "detail": problem[1], "sent_down": [describe(s) for s in sent2][:6]}, case=single)
+                return out
     out.evals = max(1, evals)
     out.nontrivial_n = nt
     return out
@@ -396,6 +414,9 @@ def plan(tier):
     strategies.append(("e2e_unpresentable",
                        st.builds(lambda g, e, t, ks: {"sub": "e2e_unpresentable", "kind": "e2e", "group": g, "established": e, "third": t, "kinds": ks},
                                  st.booleans(), st.booleans(), st.booleans(), st.lists(st.sampled_from(E2E_KINDS), min_size=1, max_size=4)), 2 * n))
+    for name, strat, k in list(strategies):
+        if name.split(":")[0].split("_")[0] in ("notification", "call", "message", "media") and "failing" not in name:
+            strategies.append((name + ":again", strat.map(lambda c: dict(c, again=True)), k))
     return {
         "shards": 16,
         "enumerations": [("unknown_mediatype_fragments", _enum_mediatype_fragments), ("e2e_unpresentable_basic", _enum_e2e)],
@@ -407,3 +428,4 @@ def plan(tier):
     }
 
 RULE += (' Also: unpresentable content under other stanza types (reaction, poll, pay, newsletter, none); unknown-type notifications carrying blobs of up to 3000 bytes; unpresentable content arriving encrypted (own process, real sessions: direct / group, first contact / after a conversation).')
+RULE += (" Every notification, call and unpresentable-message stimulus is also delivered a second time (new id, same sender) before anything the first one made the client ask the server has been answered; each is acknowledged on its own.")
